@@ -134,15 +134,18 @@ func (nd *NdArrayTypeCommon) Len3() int {
 }
 
 func (nd *NdArrayTypeCommon) SliceInto(dest *NdArrayTypeCommon, loc []int, dims []int, step []int) {
-	dest.OriginalDims = nd.OriginalDims
+	// dims may be shorter than loc: the trailing dimensions are then pinned at loc (folded into Start)
+	// and the view keeps only the strides of the dimensions it still has
+	n := len(dims)
+	dest.OriginalDims = nd.OriginalDims[:n]
 	dest.Dims = dims
 	dest.Start = nd.Start + dotProduct(loc, nd.OffsetStep)
-	dest.Offset = nd.Offset
+	dest.Offset = nd.Offset[:n]
 
 	if step == nil {
-		dest.Step = nd.Step
+		dest.Step = nd.Step[:n]
 	} else {
-		dest.Step = Multiply(nd.Step, step)
+		dest.Step = Multiply(nd.Step[:n], step)
 	}
 	dest.OffsetStep = Multiply(dest.Step, dest.Offset)
 }
